@@ -11,7 +11,7 @@ package storage
 //@   pure
 //@   ensures result == mkkey(rlsname, version)
 
-//@ ghost func ledgerWF() bool = forall k string :: Dex[k] ==> k == mkkey(Dname[k], Dver[k])
+//@ ghost func ledgerWF() bool = (forall k string :: Dex[k] ==> k == mkkey(Dname[k], Dver[k])) && (forall n string, v int :: Dex[mkkey(n, v)] ==> Dname[mkkey(n, v)] == n && Dver[mkkey(n, v)] == v)
 
 //@ func (*Storage).Get
 //@   props C01
@@ -43,6 +43,9 @@ package storage
 //@   ensures [sound] err == nil ==> len(result) > 0 && (forall j int :: 0 <= j && j < len(result) ==> stored(result[j]) && result[j].Name == name)
 //@   ensures [complete] err == nil ==> forall k string :: Dex[k] && Dname[k] == name ==> (exists j int :: 0 <= j && j < len(result) && mkkey(result[j].Name, result[j].Version) == k)
 //@   ensures [distinct] err == nil ==> forall a, b int :: 0 <= a && a < b && b < len(result) ==> result[a].Version != result[b].Version
+//@   ensures [empty-on-error] err != nil ==> forall k string :: !(Dex[k] && Dname[k] == name)
+//@   ensures [fresh-objects] err == nil ==> forall j int :: 0 <= j && j < len(result) ==> fresh(result[j]) && fresh(result[j].Info)
+//@   ensures [distinct-objects] err == nil ==> forall a, b int :: 0 <= a && a < b && b < len(result) ==> result[a] != result[b] && result[a].Info != result[b].Info
 //@   ensures [readonly] Dex == old(Dex) && Dst == old(Dst) && Dwritten == old(Dwritten) && Dname == old(Dname) && Dver == old(Dver)
 
 //@ ghost func noneDeployed(name string) bool = forall k string :: !(Dex[k] && Dname[k] == name && Dst[k] == "deployed")
